@@ -333,3 +333,6 @@ def run(cx):
     cx.guard(r6_filter_table)
     cx.borrow(c01.r1_run_guard, "C01.R1", "C12.R7", "one attempt per rule (C01.R1) and observers fired once in finally (C03.R1)")
     cx.borrow(c03.r1_no_escape, "C03.R1", "C12.R7", "one attempt per rule (C01.R1) and observers fired once in finally (C03.R1)")
+    # 'accounted' means outcome, exception and missing requirements live in the one broker the evaluator reports from: nobody copies instances
+    # from one broker into another (which would leave the exceptions behind) - the who-may-write rule on Broker.instances (C01.R3)
+    cx.borrow(c01.r3_single_writer, "C01.R3", "C12.R7", "one attempt per rule (C01.R1) and observers fired once in finally (C03.R1)", mods)
